@@ -2,6 +2,7 @@
 import itertools
 
 import asm
+import core
 import gen
 import impl
 from impl import EntSpec
@@ -114,6 +115,36 @@ def check_case(ctx, case):
             vdown, vup, mods, got, exp), case)
     if exp[0] == "ok" and prod is None:
         ctx.fail("no record returned", case)
+    if exp[0] == "ok" and exp[2] and (case.get("warn_twice") or core.pick(case, 3)):
+        # left-over modules are reported at every call, not once per process: two calls under one recording block
+        import warnings
+        ents2 = impl.build_entities(v, ents)
+        with warnings.catch_warnings(record=True) as wl:
+            warnings.simplefilter("default")
+            for _ in range(2):
+                try:
+                    ents2[0].assemble(*ents2[1])
+                except Exception:  # noqa
+                    pass
+        nw = sum(1 for w_ in wl if isinstance(w_.message, impl.errors.UnusedModules))
+        if nw != 2:
+            ctx.fail("two successive assemblies that each leave modules {} unused issue {} UnusedModules warning(s) under "
+                     "the default warning filter".format(exp[2], nw), case)
+        ctx.note("warned-at-every-call")
+    if case.get("eqclass"):
+        # a laboratory's module class with value semantics (equal when the record ids are equal, hashable): two such
+        # modules with one start overhang are still two modules
+        Meq = type("EqModule", (M,), {"__eq__": lambda a_, b_: type(a_) is type(b_) and a_.record.id == b_.record.id,
+                                      "__ne__": lambda a_, b_: not (type(a_) is type(b_) and a_.record.id == b_.record.id),
+                                      "__hash__": lambda a_: hash(a_.record.id)})
+        eents = [e_._replace(cls=Meq) for e_ in ents]
+        reply_e, _, _ = impl.run_asm(("ASM", 1, 1, v, eents))
+        fe = reply_e.split("\t")
+        kind_e = "ok" if fe[0] == "ok" else fe[1].split(":")[0]
+        if kind_e != exp[0]:
+            ctx.fail("with a module class that defines equality by record id, vector down={} up={} and modules {} end with {} "
+                     "instead of {}".format(vdown, vup, mods, kind_e, exp[0]), case)
+        ctx.note("value-equality-module-class")
     ctx.note("outcome:" + exp[0])
     ctx.case(case, nontrivial=True, key=[case["vector"], sorted(mods), exp[0],
                                              (exp[1] if isinstance(exp[1], int) else len(exp[1])) if exp[0] == "ok" else 0, same])
@@ -224,7 +255,7 @@ def run(ctx):
         rot = [rng.randrange(64) for _ in range(len(mods) + 2)] if rng.random() < 0.6 else []
         ctx.guard(check_case, {"vector": list(vec), "mods": mods, "asm_corr": (not same) and rng.random() < 0.2,
                                "lower": lower, "same_id": same, "rot": rot,
-                               "vcase": rng.choice([None, None, "lower", "half"])})
+                               "vcase": rng.choice([None, None, "lower", "half"]), "warn_twice": rng.random() < 0.15})
     # one plasmid file loaded once and wrapped several times: distinct module objects around one record object
     for _ in range(ctx.budget(120, 3000)):
         vec = rng.choice(VECTORS)
@@ -238,6 +269,7 @@ def run(ctx):
         rng.shuffle(mods)
         ctx.guard(check_case, {"vector": list(vec), "mods": mods, "same_id": True, "share": True,
                                "vcase": rng.choice([None, "half"])})
+        ctx.guard(check_case, {"vector": list(vec), "mods": mods, "same_id": True, "eqclass": True})
     # reverse-complementary / equal start overhangs spelt in different cases, in every argument order
     for _ in range(ctx.budget(150, 3000)):
         vec = rng.choice([v for v in VECTORS if v[0] != v[1]])
